@@ -482,6 +482,9 @@ func (ev *Evaluator) evalPath(p *jast.Path, in Value, env *Env) (Value, *Err) {
 			return anchored(s.X, false)
 		case *jast.Sort:
 			return anchored(s.X, false)
+		case *jast.Path:
+			// the sequence of an order-by can be a path that starts with a variable
+			return !outer && len(s.Steps) > 0 && anchored(s.Steps[0], false)
 		}
 		return false
 	}
